@@ -363,6 +363,49 @@ mod proofs {
         kani::cover!(idx + 8 >= n, "start in the last group");
         core::mem::forget(f);
     }
+    /// the same contract from ONE concrete start index (cheap: every file position is concrete),
+    /// table still fully symbolic; used in the quick tier for the start indices at which the three
+    /// loops of the scan hand over to each other on a table of 128 buckets
+    fn scan_at<const N: usize, const T: usize>(idx: u64) {
+        let (img, end) = table::<N, T>();
+        let mut buf = BufFile::from_image(img.to_vec(), end);
+        buf.ro = true;
+        let mut f = verif::htx::var_file(buf);
+        let n = N as u64;
+        let (next, off) = ok(f.next_key_piece_offset(n, idx));
+        let j: u64 = kani::any();
+        kani::assume(j >= idx && j < n);
+        if off.as_value() != 0 {
+            assert!(next >= idx + 1 && next <= n, "scan: next index out of range");
+            assert!(head(&img, (next - 1) as usize) == off.as_value(), "scan returned an offset that is not the head of the bucket before the next index");
+            if j < next - 1 {
+                assert!(head(&img, j as usize) == 0, "scan skipped a non-empty bucket");
+            }
+        } else {
+            assert!(next >= n, "scan stopped before the end of the table without a result");
+            assert!(head(&img, j as usize) == 0, "scan missed a non-empty bucket");
+        }
+        let b = f.verif_buf();
+        assert!(b.end == end && b.n_extend_by_seek == 0 && b.n_set_len == 0, "scan changed the length of the file");
+        assert!(b.pos <= end + 8, "scan left the position far beyond the end of the file");
+        kani::cover!(off.as_value() != 0, "hit");
+        kani::cover!(off.as_value() == 0, "nothing found");
+        core::mem::forget(f);
+    }
+    macro_rules! scan_at_proof {
+        ($name:ident, $n:expr, $idx:expr) => {
+            #[kani::proof]
+            #[kani::unwind(11)]
+            fn $name() {
+                scan_at::<$n, { tsize!($n) }>($idx);
+            }
+        };
+    }
+    scan_at_proof!(b_scan_128_at0, 128, 0);
+    scan_at_proof!(b_scan_128_at56, 128, 56);
+    scan_at_proof!(b_scan_128_at64, 128, 64);
+    scan_at_proof!(b_scan_128_at120, 128, 120);
+    scan_at_proof!(b_scan_256_at184, 256, 184);
     macro_rules! scan_proof {
         ($name:ident, $n:expr, $unwind:expr, $aligned:expr) => {
             #[kani::proof]
